@@ -390,6 +390,8 @@ impl Write for UnixTerminal {
 impl Terminal for UnixTerminal {
     #[tracing::instrument(name="[UnixTerminal.poll]", level="trace", skip_all, fields(?timeout))]
     fn poll(&mut self, timeout: Option<Duration>) -> Result<Option<TerminalEvent>, Error> {
+        #[cfg(feature = "verif-hooks")]
+        use verif::Instant;
         self.write_queue.flush()?;
 
         let mut first_loop = true;
@@ -444,6 +446,8 @@ impl Terminal for UnixTerminal {
                 self.stats.send += send;
             }
 
+            #[cfg(feature = "verif-hooks")]
+            verif::point("signals");
             // process signals
             if signal.is_readable() {
                 for signal in self.signal_delivery.pending() {
@@ -464,6 +468,8 @@ impl Terminal for UnixTerminal {
                 }
             }
 
+            #[cfg(feature = "verif-hooks")]
+            verif::point("waker");
             // process waker
             if waker.is_readable() {
                 let mut buf = [0u8; 1024];
@@ -472,6 +478,8 @@ impl Terminal for UnixTerminal {
                 }
             }
 
+            #[cfg(feature = "verif-hooks")]
+            verif::point("input");
             // process pending input
             if tty.is_readable() {
                 let mut buf = [0u8; 1024];
@@ -610,6 +618,10 @@ impl AsFd for Tty {
 
 impl Write for Tty {
     fn write(&mut self, buf: &[u8]) -> std::io::Result<usize> {
+        #[cfg(feature = "verif-hooks")]
+        if let Some(result) = verif::tty_write(self.as_raw_fd(), buf) {
+            return result;
+        }
         rustix::io::write(self, buf).map_err(std::io::Error::from)
     }
 
@@ -620,6 +632,10 @@ impl Write for Tty {
 
 impl Read for Tty {
     fn read(&mut self, buf: &mut [u8]) -> std::io::Result<usize> {
+        #[cfg(feature = "verif-hooks")]
+        if let Some(result) = verif::tty_read(self.as_raw_fd(), buf) {
+            return result;
+        }
         rustix::io::read(self, buf).map_err(std::io::Error::from)
     }
 }
@@ -662,6 +678,16 @@ impl Poll {
     }
 
     fn wait(&mut self, timeout: Option<Duration>) -> Result<PollEvents<'_>, std::io::Error> {
+        #[cfg(feature = "verif-hooks")]
+        match verif::select(&mut self.registred, &mut self.matched, timeout) {
+            Some(Ok(())) => {
+                return Ok(PollEvents {
+                    matched: &self.matched,
+                });
+            }
+            Some(Err(error)) => return Err(error),
+            None => {}
+        }
         // setup sets
         self.read_set.fill(Default::default());
         self.write_set.fill(Default::default());
@@ -777,5 +803,152 @@ impl PollEvents<'_> {
 
     pub fn len(&self) -> usize {
         self.matched.len()
+    }
+}
+
+/// Verification hooks: an environment seam. When no environment is installed
+/// (always, outside of an external checker) every hook is a no-op and the real
+/// system calls and the real clock are used.
+#[cfg(feature = "verif-hooks")]
+pub mod verif {
+    use super::{PollEvent, RawFd};
+    use std::{cell::RefCell, collections::HashMap, time::Duration};
+
+    // keeps module level `Instant` import used when it is shadowed inside `poll`
+    const _: fn() -> super::Instant = super::Instant::now;
+
+    /// Environment which answers instead of the kernel
+    pub trait Env {
+        /// `write(2)` on the tty descriptor, `None` - perform the real call
+        fn tty_write(&mut self, fd: RawFd, buf: &[u8]) -> Option<std::io::Result<usize>>;
+        /// `read(2)` on the tty descriptor, `None` - perform the real call
+        fn tty_read(&mut self, fd: RawFd, buf: &mut [u8]) -> Option<std::io::Result<usize>>;
+        /// `select(2)`: given descriptors registered for reading and writing
+        /// returns descriptors that are ready, `None` - perform the real call
+        fn select(
+            &mut self,
+            read: &[RawFd],
+            write: &[RawFd],
+            timeout: Option<Duration>,
+        ) -> Option<std::io::Result<(Vec<RawFd>, Vec<RawFd>)>>;
+        /// Virtual monotonic clock, `None` - use the real clock
+        fn now(&mut self) -> Option<Duration>;
+        /// Marker between system calls of the poll loop
+        fn point(&mut self, label: &'static str);
+    }
+
+    thread_local! {
+        static ENV: RefCell<Option<Box<dyn Env>>> = const { RefCell::new(None) };
+    }
+
+    /// Install environment for the current thread
+    pub fn install(env: Box<dyn Env>) -> Option<Box<dyn Env>> {
+        ENV.with(|slot| slot.borrow_mut().replace(env))
+    }
+
+    /// Remove environment of the current thread
+    pub fn uninstall() -> Option<Box<dyn Env>> {
+        ENV.with(|slot| slot.borrow_mut().take())
+    }
+
+    fn with_env<R>(f: impl FnOnce(&mut dyn Env) -> Option<R>) -> Option<R> {
+        ENV.with(|slot| match slot.try_borrow_mut() {
+            Ok(mut env) => match env.as_mut() {
+                Some(env) => f(env.as_mut()),
+                None => None,
+            },
+            Err(_) => None,
+        })
+    }
+
+    pub(super) fn tty_write(fd: RawFd, buf: &[u8]) -> Option<std::io::Result<usize>> {
+        with_env(|env| env.tty_write(fd, buf))
+    }
+
+    pub(super) fn tty_read(fd: RawFd, buf: &mut [u8]) -> Option<std::io::Result<usize>> {
+        with_env(|env| env.tty_read(fd, buf))
+    }
+
+    pub(super) fn point(label: &'static str) {
+        with_env(|env| {
+            env.point(label);
+            Some(())
+        });
+    }
+
+    pub(super) fn select(
+        registred: &mut HashMap<RawFd, PollEvent>,
+        matched: &mut HashMap<RawFd, PollEvent>,
+        timeout: Option<Duration>,
+    ) -> Option<std::io::Result<()>> {
+        let mut read: Vec<RawFd> = Vec::new();
+        let mut write: Vec<RawFd> = Vec::new();
+        for event in registred.values() {
+            if event.is_readable() {
+                read.push(event.fd);
+            }
+            if event.is_writable() {
+                write.push(event.fd);
+            }
+        }
+        read.sort();
+        write.sort();
+        let result = with_env(|env| env.select(&read, &write, timeout))?;
+        // same bookkeeping as the real implementation
+        registred.retain(|_, event| !event.is_unset());
+        Some(result.map(|(read_ready, write_ready)| {
+            matched.clear();
+            for fd in read_ready {
+                matched
+                    .entry(fd)
+                    .or_insert_with(|| PollEvent::from_fd(fd))
+                    .readable = Some(true);
+            }
+            for fd in write_ready {
+                matched
+                    .entry(fd)
+                    .or_insert_with(|| PollEvent::from_fd(fd))
+                    .writable = Some(true);
+            }
+        }))
+    }
+
+    /// Clock used inside of `poll`, virtual if environment provides one
+    #[derive(Debug, Clone, Copy, PartialEq, PartialOrd)]
+    pub enum Instant {
+        Real(std::time::Instant),
+        Virtual(Duration),
+    }
+
+    impl Instant {
+        pub fn now() -> Self {
+            match with_env(|env| env.now()) {
+                Some(now) => Instant::Virtual(now),
+                None => Instant::Real(std::time::Instant::now()),
+            }
+        }
+    }
+
+    impl std::ops::Add<Duration> for Instant {
+        type Output = Instant;
+
+        fn add(self, rhs: Duration) -> Self::Output {
+            match self {
+                Instant::Real(instant) => Instant::Real(instant + rhs),
+                Instant::Virtual(instant) => Instant::Virtual(instant + rhs),
+            }
+        }
+    }
+
+    impl std::ops::Sub<Instant> for Instant {
+        type Output = Duration;
+
+        fn sub(self, rhs: Instant) -> Self::Output {
+            match (self, rhs) {
+                (Instant::Real(lhs), Instant::Real(rhs)) => lhs - rhs,
+                (Instant::Virtual(lhs), Instant::Virtual(rhs)) => lhs.saturating_sub(rhs),
+                _ => Duration::new(0, 0),
+            }
+        }
     }
 }
